@@ -2,6 +2,7 @@ CONSTANTS
   MaxFrames = 1
   Lens = {1}
   H = 1
+  Preface = 0
   Defects = {}
 SPECIFICATION TraceSpec
 POSTCONDITION Accepted
